@@ -20,6 +20,70 @@ Theorem C19_aborted_marks_have_no_effect : forall d tabs ops,
 Proof. intros. now apply abort_restores_root. Qed.
 Print Assumptions C19_aborted_marks_have_no_effect.
 
+(* ==== history level (Table/Inv5.v) ================================================================ *)
+From SV Require Import KeyEnc.Model Table.InvDefs Table.Inv Table.Inv2 Table.Inv3 Table.Inv5.
+
+(* the set of closed init-watch channels changes only in a Commit, and then only grows: by the
+   watches of the locked tables whose initializers are all done (commit_closing: Table/Inv2.v) *)
+Theorem C19_watch_closes_only_in_commit : forall d o,
+  d_closedw (fst (step d o)) = d_closedw d \/
+  exists sid es old, o = OCommit sid /\ d_txn d = Some (es, old) /\
+                     d_closedw (fst (step d o)) = commit_closing es ++ d_closedw d.
+Proof. exact closedw_step. Qed.
+Print Assumptions C19_watch_closes_only_in_commit.
+
+Theorem C19_closed_watch_stays_closed : forall ops d w,
+  In w (d_closedw d) -> In w (d_closedw (fst (run d ops))).
+Proof. exact closedw_grows_run. Qed.
+Print Assumptions C19_closed_watch_stays_closed.
+
+(* the watch-id invariant WInv (Table/Inv5.v: ids handed out are below the counter, owned by one
+   table of the root / of the transaction, never an already closed one; closed ids are distinct)
+   holds along every history from the initial state; TxnInv (Table/Inv3.v) likewise *)
+Theorem C19_watch_invariant_reachable : forall n ops,
+  WInv (fst (run (init_db n) ops)) /\ TxnInv (fst (run (init_db n) ops)) /\
+  NoDup (d_closedw (fst (run (init_db n) ops))).
+Proof. exact reachable_watch_facts. Qed.
+Print Assumptions C19_watch_invariant_reachable.
+
+(* signalled after visibility: a watch w closed by Commit was open before, belonged to a locked table
+   of the transaction with no pending initializer, and the NEW root already has that table initialized:
+   a fresh snapshot taken by whoever observes the close reports Initialized = true, no pending, closed watch *)
+Theorem C19_closed_after_visible : forall d sid es old w, TxnInv d -> WInv d -> d_txn d = Some (es, old) ->
+  let d' := fst (step d (OCommit sid)) in
+  In w (d_closedw d') -> ~ In w (d_closedw d) ->
+  exists i t t', nth_error es i = Some (t, true) /\ t_init t = Some (w, []) /\
+                 nth_error (d_root d') i = Some t' /\ t_init t' = None /\
+                 snd (step d' (OQuery SFresh i QInit)) = OutInit true [] true.
+Proof. exact commit_closes_after_visible. Qed.
+Print Assumptions C19_closed_after_visible.
+
+(* each watch closes at most once: what a Commit closes was open, and the closed list stays duplicate-free *)
+Theorem C19_closes_at_most_once : forall d sid es old, TxnInv d -> WInv d -> d_txn d = Some (es, old) ->
+  NoDup (d_closedw (fst (step d (OCommit sid)))) /\
+  forall w, In w (commit_closing es) -> ~ In w (d_closedw d).
+Proof. exact commit_closes_once. Qed.
+Print Assumptions C19_closes_at_most_once.
+
+(* Initialized is monotone along committed states: an initialized committed table stays initialized
+   in the next state unless a Commit publishes a locked entry that has pending initializers ... *)
+Theorem C19_initialized_monotone : forall d o i t t', TxnInv d ->
+  nth_error (d_root d) i = Some t -> initialized t = true ->
+  nth_error (d_root (fst (step d o))) i = Some t' ->
+  initialized t' = true \/
+  exists sid es old te w p, o = OCommit sid /\ d_txn d = Some (es, old) /\ nth_error es i = Some (te, true) /\
+                            t_init te = Some (w, p) /\ p <> [].
+Proof. exact initialized_monotone_step. Qed.
+Print Assumptions C19_initialized_monotone.
+
+(* ... and inside a transaction only RegisterInitializer on that table makes an entry uninitialized *)
+Theorem C19_uninitialized_only_by_register : forall d o es old i t b es' old' t' b',
+  d_txn d = Some (es, old) -> nth_error es i = Some (t, b) -> initialized t = true ->
+  d_txn (fst (step d o)) = Some (es', old') -> nth_error es' i = Some (t', b') ->
+  initialized t' = true \/ exists name, o = ORegInit i name.
+Proof. exact txn_uninit_only_by_reginit. Qed.
+Print Assumptions C19_uninitialized_only_by_register.
+
 Example C19_nonvacuous :
   let d := fst (run (init_db 1) [OBegin [0%nat]; ORegInit 0 1; OCommit 0]) in
   snd (step d (OQuery SFresh 0 QInit)) = OutInit false [1] false /\
